@@ -2,6 +2,7 @@ package rules
 
 import (
 	"fmt"
+	"go/constant"
 	"go/token"
 	"strconv"
 	"strings"
@@ -26,6 +27,7 @@ func init() {
 			Rules: map[string]string{
 				"C19-R1": "ServeHTTP gate and header effects", "C19-R2": "shouldProxy decision table incl. dot segments and split limit",
 				"C19-R3": "ReverseProxy literal: Rewrite, not Director; Rewrite's effects",
+				"C19-R4": "the client-IP header is (re-)set on the outgoing request inside Rewrite, i.e. after httputil has removed the hop-by-hop headers that the client's Connection header names",
 			},
 		}})
 }
@@ -242,11 +244,12 @@ func runC19(c *an.Ctx) {
 					}
 				case n == "(*net/http/httputil.ProxyRequest).SetXForwarded":
 					bad = "SetXForwarded adds forwarding headers"
-				case n == "(net/http.Header).Set", n == "agdhttp.UserAgent":
+				case n == "(net/http.Header).Set", n == "(net/http.Header).Get", n == "agdhttp.UserAgent":
 				case strings.HasPrefix(n, "(net/http.Header)."):
 					bad = "header manipulation " + n
 				}
 			}
+			c19OutHeaders(c, rewriteFn)
 			c.Check(setURL && bad == "", "C19-R3", "websvc.linkedIPHandler Rewrite", rewriteFn.Pos(),
 				"Rewrite routes to the configured target with SetURL and only sets Host and User-Agent",
 				"Rewrite does more than SetURL(target) + Host/User-Agent: "+bad)
@@ -257,4 +260,59 @@ func runC19(c *an.Ctx) {
 func isFreeVar(v ssa.Value) bool {
 	_, ok := v.(*ssa.FreeVar)
 	return ok
+}
+
+// c19OutHeaders checks that the header carrying the connecting peer's address
+// is set on the *outgoing* request in the Rewrite function.  httputil's
+// ReverseProxy clones the inbound request, deletes from the clone every header
+// named in the client's Connection header, and only then calls Rewrite; a header
+// that the handler set on the inbound request alone can therefore be removed by
+// the client ("Connection: X-Connecting-Ip").
+func c19OutHeaders(c *an.Ctx, rewriteFn *ssa.Function) {
+	c.Floor("C19-R4", 1)
+	want, _ := c.ConstStr("github.com/AdguardTeam/golibs/netutil/httputil/httphdr", "XConnectingIP")
+	if want == "" {
+		want = "X-Connecting-Ip"
+	}
+	keys := map[string]bool{}
+	addConst := func(v ssa.Value) {
+		if k, ok := v.(*ssa.Const); ok && k.Value != nil && k.Value.Kind() == constant.String {
+			keys[strings.ToLower(constant.StringVal(k.Value))] = true
+		}
+	}
+	for _, call := range an.Calls(rewriteFn) {
+		if an.CalleeName(call) != "(net/http.Header).Set" {
+			continue
+		}
+		args := call.Common().Args
+		// the receiver must be the outgoing request's header
+		if ap, ok := an.AccessPath(args[0]); !ok || !strings.Contains(ap, ".Out.Header") {
+			continue
+		}
+		key := args[1]
+		addConst(key)
+		// a key taken from a ranged list of constants
+		if ld, ok := key.(*ssa.UnOp); ok && ld.Op == token.MUL {
+			if ia, ok := ld.X.(*ssa.IndexAddr); ok {
+				base := ia.X
+				if sl, ok := base.(*ssa.Slice); ok {
+					base = sl.X
+				}
+				if base.Referrers() != nil {
+					for _, r := range *base.Referrers() {
+						if ia2, ok := r.(*ssa.IndexAddr); ok && ia2.Referrers() != nil {
+							for _, rr := range *ia2.Referrers() {
+								if st, ok := rr.(*ssa.Store); ok {
+									addConst(st.Val)
+								}
+							}
+						}
+					}
+				}
+			}
+		}
+	}
+	c.Check(keys[strings.ToLower(want)], "C19-R4", "websvc.linkedIPHandler Rewrite sets the client-IP header on the outgoing request", rewriteFn.Pos(),
+		"the client-IP header is set on the outgoing request after the hop-by-hop headers were removed",
+		"the client-IP header is only set on the inbound request: a client that sends \"Connection: "+want+"\" has it removed by httputil before Rewrite runs, and the backend gets a request without the connecting peer's address")
 }
